@@ -47,7 +47,8 @@ def parse_unit_file(path):
             if not name:
                 raise ValueError("%s:%d harness without fn" % (path, i + 1))
             meta = {"props": [], "kind": "proof", "tier": "quick", "fn": [], "bounds": "", "statement": [],
-                    "known": None, "cbmc": None, "unwind_failure": "undecided", "timeout": None, "role": "obligation"}
+                    "known": None, "cbmc": None, "unwind_failure": "undecided", "timeout": None, "role": "obligation",
+                    "loops": unit.get("loops")}
             j = i - 1
             doc = []
             while j >= 0 and (lines[j].strip().startswith("///") or lines[j].strip().startswith("#[")):
@@ -63,7 +64,7 @@ def parse_unit_file(path):
                         meta["props"] = v.split()
                     elif k == "fn":
                         meta["fn"] = [x.strip() for x in v.split(",") if x.strip()]
-                    elif k in ("kind", "tier", "bounds", "known", "cbmc", "unwind_failure", "timeout", "role"):
+                    elif k in ("kind", "tier", "bounds", "known", "cbmc", "unwind_failure", "timeout", "role", "loops"):
                         meta[k] = v
                     else:
                         raise ValueError("%s: unknown tag @%s" % (path, k))
@@ -97,18 +98,80 @@ def _clean(log):
     return "\n".join(out)
 
 
+def _prune_old_builds(max_age_s=6 * 3600):
+    """goto binaries of earlier harness sets pile up under the shared Kani target dir: drop stale ones"""
+    import glob, shutil
+    now = time.time()
+    for d in glob.glob(os.path.join(TARGET, "kani", "*", "debug", "build", "dust_dds", "*")):
+        try:
+            if now - os.path.getmtime(d) > max_age_s:
+                shutil.rmtree(d, ignore_errors=True)
+        except OSError:
+            pass
+
+
+def resolve_loops(scratch_dir, names, loops_spec, env, logp):
+    """loops_spec: 'fn-substring:bound,...'.  Library loops (e.g. core::num::<impl u64>::overflowing_pow, reached from
+    behavior_types::Duration::from_millis in every RtpsStatefulWriter::new) carry a crate hash in their CBMC loop id that
+    changes per build, so they are resolved here: compile only, `cbmc --show-loops` on each harness' goto binary, match
+    the pretty function name.  Returns 'id:bound,...' (may be empty)."""
+    import glob
+    want = []
+    for part in loops_spec.split(","):
+        part = part.strip()
+        if part:
+            a, b = part.rsplit(":", 1)
+            want.append((a.strip(), int(b)))
+    cmd = ["cargo", "kani", "-p", "dust_dds"] + KANI_Z + ["--exact", "--only-codegen"]
+    for n in names:
+        cmd += ["--harness", n]
+    t0 = time.time()
+    with open(logp, "w") as lf:
+        lf.write("$ " + " ".join(shlex.quote(c) for c in cmd) + "\n")
+        lf.flush()
+        subprocess.run(cmd, cwd=scratch_dir, env=env, stdout=lf, stderr=subprocess.STDOUT, timeout=3600)
+    found = {}
+    for n in names:
+        short = n.split("::")[-1]
+        cands = [f for f in glob.glob(os.path.join(TARGET, "kani", "*", "debug", "build", "dust_dds", "*", "out", "*%s.out" % short))
+                 if not f.endswith(".symtab.out") and os.path.getmtime(f) >= t0 - 5]
+        if not cands:
+            cands = sorted([f for f in glob.glob(os.path.join(TARGET, "kani", "*", "debug", "build", "dust_dds", "*", "out", "*%s.out" % short))
+                            if not f.endswith(".symtab.out")], key=os.path.getmtime)[-1:]
+        for f in cands:
+            try:
+                out = subprocess.run(["cbmc", "--show-loops", f], stdout=subprocess.PIPE, stderr=subprocess.DEVNULL,
+                                     text=True, timeout=600).stdout
+            except subprocess.TimeoutExpired:
+                continue
+            for m in re.finditer(r"^Loop (\S+):\n\s+file .* function (.*)$", out, re.M):
+                lid, fn = m.group(1), m.group(2)
+                for sub, bound in want:
+                    if sub in fn:
+                        found[lid] = max(bound, found.get(lid, 0))
+    return ",".join("%s:%d" % (k, v) for k, v in sorted(found.items()))
+
+
 def run(scratch_dir, items, jobs, harness_timeout, logdir, tag):
     """items: list of (unit, harness name, meta).  Returns {fqn: result}."""
     os.makedirs(logdir, exist_ok=True)
     env = dict(os.environ, CARGO_TARGET_DIR=TARGET, CARGO_NET_OFFLINE="true")
+    _prune_old_builds()
     groups = {}
     for unit, h, meta in items:
-        groups.setdefault((cbmc_args_for(unit, meta), int(meta.get("timeout") or harness_timeout)), []).append((unit, h, meta))
+        groups.setdefault((cbmc_args_for(unit, meta), int(meta.get("timeout") or harness_timeout), meta.get("loops") or ""), []).append((unit, h, meta))
     results = {}
     gi = 0
-    for (cargs, tmo), its in groups.items():
+    for (cargs, tmo, loops), its in groups.items():
         gi += 1
         names = [fqn(u, h) for u, h, _ in its]
+        if loops:
+            extra = resolve_loops(scratch_dir, names, loops, env, os.path.join(logdir, "%s-g%d-codegen.log" % (tag, gi + 0)))
+            if extra:
+                if "--unwindset" in cargs:
+                    cargs = re.sub(r"(--unwindset\s+)(\S+)", lambda m: m.group(1) + m.group(2) + "," + extra, cargs, count=1)
+                else:
+                    cargs = cargs + " --unwindset " + extra
         cmd = ["cargo", "kani", "-p", "dust_dds"] + KANI_Z + ["--exact"]
         for n in names:
             cmd += ["--harness", n]
@@ -209,13 +272,13 @@ def parse_terse(log):
     return res
 
 
-def playback(scratch_dir, unit, h, meta, logdir, timeout):
+def playback(scratch_dir, unit, h, meta, logdir, timeout, cbmc_args=None):
     """Re-run one failing harness with --concrete-playback=print; return list of byte vectors (or None)."""
     env = dict(os.environ, CARGO_TARGET_DIR=TARGET, CARGO_NET_OFFLINE="true")
     n = fqn(unit, h)
     cmd = ["cargo", "kani", "-p", "dust_dds"] + KANI_Z + ["-Z", "concrete-playback", "--exact", "--harness", n,
            "--concrete-playback=print", "--harness-timeout", "%ds" % timeout, "--cbmc-args"] + \
-        shlex.split(cbmc_args_for(unit, meta))
+        shlex.split(cbmc_args or cbmc_args_for(unit, meta))
     logp = os.path.join(logdir, "playback-%s-%s.log" % (unit["name"], h))
     with open(logp, "w") as lf:
         try:
